@@ -677,4 +677,21 @@ theorem kf_inside_suffix_psl :
           cleanTrailingPath (lruStems (pslSplit demoLines) true (urlOf "city.kawasaki.jp")))) := by
   decide +kernel
 
+/-- **the suffix-aware converse really needs C08's clause** (`under_of_stems_prefix_sa`, hypotheses
+`SplitLaw`): suffix_trie.py strips trailing dots, so `http://a.co.uk.` has the suffix-aware stems
+of `http://a.co.uk` — a prefix of the stems of `http://a.co.uk/x`, which does not lie under it (the
+hosts differ by the root label).  The same loss as KF-C12-2; trailing-dot hosts are outside the
+universe of C13 -/
+theorem converse_needs_splitLaw :
+    cleanTrailingPath (lruStems (pslSplit demoLines) true (urlOf "a.co.uk.")) <+:
+      cleanTrailingPath (lruStems (pslSplit demoLines) true
+        { urlOf "a.co.uk" with path := "/x".toList }) ∧
+    ¬ UnderBy lower (urlOf "a.co.uk.") { urlOf "a.co.uk" with path := "/x".toList } ∧
+    ¬ SplitLaw (pslSplit demoLines) (urlOf "a.co.uk.").netloc := by
+  refine ⟨by decide +kernel, by decide +kernel, ?_⟩
+  intro h
+  have := h "a".toList "co.uk".toList (by decide +kernel)
+  revert this
+  decide +kernel
+
 end Ural.Props.C13
